@@ -7,7 +7,12 @@ func fwd(kind int, inner Tok) Tok { return TL(TNi(0), TNi(kind), inner) }
 func (g *Gen) schedule() Tok {
 	n := g.Intn(22)
 	out := make([]Tok, n)
-	switch g.Intn(4) {
+	switch g.Intn(5) {
+	case 4: // serial: the second client runs to completion before the first one starts
+		out = make([]Tok, 22)
+		for i := range out {
+			out[i] = TBool(false)
+		}
 	case 0: // alternating
 		for i := range out {
 			out[i] = TBool(i%2 == 0)
@@ -231,6 +236,17 @@ func monitorSched(kind int) Monitor {
 			case 2:
 				pairSeen = true
 				px, py = a[1].L[0].B, a[2].L[0].B
+				// a schedule that lets one client finish before the other starts is no race at all: the
+				// recorded one-slot race of the cuckoo filter cannot explain a loss under it
+				serial := len(a[3].L) == 0 || len(a[3].L) >= 16
+				for _, t := range a[3].L {
+					if t.U() != 0 {
+						serial = false
+					}
+				}
+				if serial {
+					roomForBoth = "/serial-schedule"
+				}
 				if o.Kind == 2 && len(o.L) == 2 {
 					pairOK[0], pairOK[1] = o.L[0].Kind == 0 && o.L[0].U() == 1, o.L[1].Kind == 0 && o.L[1].U() == 1
 					if o.L[0].String() == "(7)" {
